@@ -54,6 +54,7 @@ static void cx_spawn_record(const char *how, const char *what)
     snprintf(cx_last_cmd, sizeof cx_last_cmd, "%s(%s)", how, what ? what : "NULL");
     if (vh_verbose) fprintf(stderr, "  [spawn monitor] %s\n", cx_last_cmd);
 }
+static int cx_sim_nul_first;
 static int cx_sim_cat;                 /* if set, a `cmd < IN > OUT` passed to system() copies IN to OUT (a pass-through preprocessor such as
                                           `%preproc cat`: the output still holds the %preproc line itself) */
 int __wrap_system(const char *cmd)
@@ -80,7 +81,8 @@ int __wrap_system(const char *cmd)
         if (gt) {
             gt++; while (*gt == ' ') gt++;
             int fd = open(gt, O_WRONLY | O_TRUNC);          /* never creates */
-            if (fd >= 0) { if (write(fd, cx_sim_output, strlen(cx_sim_output)) < 0) { } close(fd); }
+            /* cx_sim_nul_first: the command's output begins with a NUL byte (non-empty output, empty as a C string) */
+            if (fd >= 0) { if (cx_sim_nul_first && write(fd, "", 1) < 0) { } if (write(fd, cx_sim_output, strlen(cx_sim_output)) < 0) { } close(fd); }
         }
     }
     return -1;
@@ -138,7 +140,13 @@ void __wrap_libast_print_warning(const char *fmt, ...)
 
 /* ------------------------------------------------------------------ deterministic rand() for %random */
 static uint64_t cx_rand_state;
-int __wrap_rand(void) { return (int) (vh_splitmix(&cx_rand_state) >> 33); }   /* 0 .. 2^31-1 == RAND_MAX */
+int __wrap_rand(void)
+{
+    uint64_t r = vh_splitmix(&cx_rand_state);
+    /* every value of 0 .. RAND_MAX is a legal answer of rand(): one call in 16 returns one from the two ends of the range */
+    if ((r & 15) == 0) { vh_count("rand_at_the_ends_of_its_range", 1); return (r & 16) ? (int) ((r >> 8) & 127) : RAND_MAX - (int) ((r >> 8) & 127); }
+    return (int) (r >> 33);          /* 0 .. 2^31-1 == RAND_MAX */
+}
 void __wrap_srand(unsigned int s) { (void) s; }
 
 /* ------------------------------------------------------------------ fgets step counter */
@@ -766,7 +774,21 @@ static void cx_model_file(cx_lmodel *lm, const cx_file *f, int fdepth)
                 char name[64]; size_t k = 0;
                 while (fn[k] && !cx_is_space(fn[k]) && k < 63) { name[k] = fn[k]; k++; }
                 name[k] = 0;
-                if (cx_has_meta(line + 1)) cx_lm_weak(lm, "metacharacters in an include line");
+                if (cx_has_meta(line + 1)) {
+                    /* the line is expanded before the file name is taken from it: ${INCP}7.cfg names inc7.cfg when INCP=inc */
+                    if (!lm->xm) cx_lm_weak(lm, "metacharacters in an include line");
+                    else {
+                        /* (the text after the directive word is expanded on its own: "%include" itself is outside the expander model's strong language) */
+                        cx_buf o = { 0 }; cx_model_begin_expansion(lm->xm); cx_ref_expand(lm->xm, fn, &o, 0);
+                        if (lm->xm->weak) cx_lm_weak(lm, lm->xm->weak_why);
+                        const char *q = o.b ? o.b : "";
+                        while (*q && cx_is_space(*q)) q++;
+                        k = 0; while (q[k] && !cx_is_space(q[k]) && k < 63) { name[k] = q[k]; k++; }
+                        name[k] = 0;
+                        cx_buf_free(&o);
+                        vh_count("include_names_through_expansion", 1);
+                    }
+                }
                 cx_file *inc = cx_file_find(name);
                 lm->includes++;
                 int already_open = 0;
@@ -905,6 +927,7 @@ typedef struct {
     const cx_ctxs *ctxs;
     int n_reg, expansion;
     int depth, target_depth, ramping, files_left, chain_left, max_level, next_file_no;
+    int inc_through_env;                /* the environment has INCP=inc: some %include lines spell their file name through it */
     int overlong_left;                  /* how many over-long lines this tree may still get */
     int cycles;                         /* also generate %include lines that name a file already being read */
     long lines_emitted, line_budget;
@@ -1023,7 +1046,8 @@ static void cx_gen_include(cx_file *f, int level)
     snprintf(name, sizeof name, "inc%d.cfg", cx_g.next_file_no++);
     cx_file *inc = cx_file_new(name);          /* cx_files[] is a static array: f stays valid */
     if (!inc) return;
-    snprintf(line, sizeof line, "%%include %s", name);
+    if (cx_g.expansion && cx_g.inc_through_env && !strncmp(name, "inc", 3) && vh_coin(35)) snprintf(line, sizeof line, "%%include %s%s", vh_coin(50) ? "${INCP}" : "$(INCP)", name + 3);
+    else snprintf(line, sizeof line, "%%include %s", name);
     cx_gen_line(f, line);
     if (cx_g.cycles && vh_coin(12)) return;          /* leave the included file zero-length */
     cx_gen_file(inc, level + 1);
